@@ -298,6 +298,13 @@ def rule_validate_first(ctx, res):
     nl = 0
     okd = True
     nd = 0
+    # sums that are compared with bytes.len() somewhere: the position after a byte string (not the length accumulator)
+    compared_with_len = set()
+    for p in vs.paths:
+        for c in p.conds:
+            r2, x, y, t2 = literal(c)
+            if r2 == 'lt' and isinstance(x, tuple) and find_calls(x, '::len') and is_param(strip_transparent(find_calls(x, '::len')[0][2][0]), 'bytes'):
+                compared_with_len.add(strip_transparent(y))
     for p in vs.paths:
         for e in p.effects:
             if e[0] == 'assert' and e[1] == 'overflow:Add':
@@ -305,6 +312,14 @@ def rule_validate_first(ctx, res):
                 # AddWithOverflow(pos, len).1 : advancing by a declared length (second operand not a constant)
                 inner = t[1] if t[0] == 'overflow' else None
                 if inner and inner[0] == 'bin' and term_int(inner[3]) is None:
+                    # `start + offset` with offset = iter.skip(start).position(..): advancing to a byte that was found, not by a declared length
+                    off = strip_transparent(inner[3])
+                    if isinstance(off, tuple) and off[0] == 'field' and isinstance(off[1], tuple) and off[1][0] == 'downcast':
+                        pc = strip_transparent(off[1][1])
+                        if isinstance(pc, tuple) and pc[0] == 'call' and pc[1].split('::')[-1] == 'position':
+                            sk = find_calls(pc[2][0], '::skip')
+                            if sk and strip_transparent(sk[0][2][1]) == strip_transparent(inner[2]):
+                                continue
                     nl += 1
                     adv = strip_transparent(inner[3])
                     pos = inner[2]
@@ -317,6 +332,22 @@ def rule_validate_first(ctx, res):
                             guarded = True
                     if not guarded:
                         okl = False
+        # form B of the same guard: `pos.checked_add(len)` whose sum is used only after `sum <= bytes.len()` held
+        for c in p.conds:
+            rel, a, b2, truth = literal(c)
+            if rel == 'variant' and isinstance(a, tuple) and a[0] == 'call' and a[1].split('::')[-1] == 'checked_add' and option_is_some(b2) is True \
+                    and ('field', ('downcast', a, 'Some'), '0') in compared_with_len \
+                    and term_int(strip_transparent(a[2][1])) is None and not (p.end == 'return' and (agg_variant(p.ret) == 'Err' or (isinstance(p.ret, tuple) and p.ret[0] == 'call' and p.ret[1].endswith('from_residual')))):
+                nl += 1
+                payload = ('field', ('downcast', a, 'Some'), '0')
+                guarded = False
+                for c2 in p.conds:
+                    r2, x, y, t2 = literal(c2)
+                    # `sum <= bytes.len()` normalises to lt(bytes.len(), sum) == false
+                    if r2 == 'lt' and t2 is False and strip_transparent(y) == payload and find_calls(x, '::len') and is_param(strip_transparent(find_calls(x, '::len')[0][2][0]), 'bytes'):
+                        guarded = True
+                if not guarded:
+                    okl = False
         # (2) depth test: every increment of depth is followed by the comparison with MAX_DEPTH whose exceeding edge returns Err
     for p in vs.paths:
         incs = [c for c in p.conds if literal(c)[0] == 'lt' and term_int(literal(c)[1]) == maxd]
